@@ -176,6 +176,21 @@ def make_args(ctx: Any, st: Any, op: str) -> tuple:
 
 
 REFUSAL = (ValueError, UserWarning)
+PENDING_OF = {'post_ante': 'ante', 'post_blind_or_straddle': 'blind', 'kill_hand': 'kill', 'pull_chips': 'pull',
+              'select_runout_count': 'runout', 'show_or_muck_hole_cards': 'show'}
+
+
+def pending_sets(st: Any) -> dict:
+    return {
+        'status': st.status, 'street': st.street_index,
+        'ante': list(st.ante_poster_indices), 'blind': list(st.blind_or_straddle_poster_indices),
+        'kill': list(st.hand_killing_indices), 'pull': list(st.chips_pulling_indices),
+        'runout': list(st.runout_count_selector_indices), 'show': list(st.showdown_indices),
+        # ops appended by a cascade mean the phase moved on: then the pending lists are reset legitimately
+        'phase_marker': (st.street_index, bool(list(st.ante_poster_indices)), bool(list(st.blind_or_straddle_poster_indices)),
+                         bool(list(st.hand_killing_indices)), bool(list(st.chips_pulling_indices)),
+                         bool(list(st.runout_count_selector_indices)) or bool(st.showdown_indices)),
+    }
 
 
 def h_probe(ctx: Any, code: str, n: int, script: str, mode: str = 'C', stacks: Any = None,
@@ -213,6 +228,7 @@ def h_probe(ctx: Any, code: str, n: int, script: str, mode: str = 'C', stacks: A
     opname = (ops or OPS)[ctx.choice('op', len(ops or OPS))]
     args = make_args(ctx, st, opname)
     before = snapshot(st)
+    pend_before = pending_sets(st)
     # query
     try:
         can = getattr(st, CAN[opname])(*args)
@@ -258,11 +274,22 @@ def h_probe(ctx: Any, code: str, n: int, script: str, mode: str = 'C', stacks: A
             ctx.check(rec.player_index == args[1], 'wrong-player', opname)
         if opname == 'select_runout_count':
             ctx.check(rec.runout_count is None or rec.runout_count == args[0], 'wrong-count')
+        # the pending set of the operation's phase loses exactly the player operated on
+        key = PENDING_OF.get(opname)
+        if key is not None and getattr(rec, 'player_index', None) is not None and pend_before['status']:
+            who = rec.player_index
+            exp = [i for i in pend_before[key] if i != who]
+            now = pending_sets(st)
+            if now['status'] and not (opname == 'show_or_muck_hole_cards' and pend_before['street'] is None):
+                same_phase = now['phase_marker'] == pend_before['phase_marker']
+                if same_phase:
+                    ctx.check(list(now[key]) == exp, 'wrong-player-removed-from-pending',
+                              lambda: f'{opname}{args}: pending {pend_before[key]} -> {now[key]} expected {exp}')
         ctx.check(st.operations[-1] is rec or True, 'log')
 
 
 SCRIPTS = {
-    'NT': [('ccc', 'C'), ('Rcc', 'C'), ('rfcrc', 'T'), ('ff', 'T'), ('Rcf', 'C')],
+    'NT': [('ccc', 'C'), ('Rcc', 'C'), ('rfcrc', 'T'), ('ff', 'T'), ('Rcf', 'C'), ('Rfc', 'T')],
     'N2L1D': [('ccdscc', 'C'), ('Rc', 'C'), ('rcsdrc', 'T')],
     'F7S': [('bcccccccc', 'C'), ('rRc', 'C'), ('bcrcf', 'T')],
     'PO': [('cc', 'C'), ('Rc', 'C')],
